@@ -9,6 +9,7 @@
 -/
 import Gvlean.Generated.MwFacts
 import Gvlean.Spec.Mw
+import Gvlean.Gen.MwSeq
 
 namespace Props
 open Mw Generated.Mw Spec
@@ -84,5 +85,45 @@ example : run (α := Nat) { zero := 0, decode := fun _ => some 7, validate := fu
 example : run (α := Nat) { zero := 0, decode := fun _ => none, validate := fun _ _ => .ok } validateRequest = .respond 400 "Invalid JSON\n" := by decide
 example : run (α := Nat) { zero := 0, decode := fun _ => some 7, validate := fun c _ => .err "context canceled" c false } validateRequestContext
     = .respond 408 "Validation error: context canceled\n" := by decide
+
+/-- HISTORY INDEPENDENCE: one middleware value answering any sequence of requests, whatever an earlier request
+    left behind (`st`), answers the n-th request exactly as C20 demands of that request alone. Rests on the
+    EXTRACTED fact that both closures start with `var body T` (`.fresh`): were the payload kept outside the
+    closure (captured variable, pool), mwfacts would not emit `.fresh` and this theorem would not check. -/
+theorem c20_sequence {α : Type} (st : Option α) (es : List (Env α)) :
+    serveAll validateRequest st es = es.map (specAct false) ∧
+    serveAll validateRequestContext st es = es.map (specAct true) := by
+  constructor
+  · rw [serveAll_of_head validateRequest rfl]
+    exact List.map_congr_left fun e _ => c20_plain e
+  · rw [serveAll_of_head validateRequestContext rfl]
+    exact List.map_congr_left fun e _ => c20_ctx e
+
+/-- the handler is called for the n-th request iff THAT request's body decodes into a fresh zero value and validates -/
+theorem c20_sequence_called_iff {α : Type} (st : Option α) (es : List (Env α)) (n : Nat) (hn : n < es.length) :
+    (serveAll validateRequestContext st es)[n]? = some .callNext ↔
+      ∃ t, es[n].decode es[n].zero = some t ∧ es[n].validate true t = .ok := by
+  rw [(c20_sequence st es).2, List.getElem?_map, List.getElem?_eq_getElem hn]
+  simp only [Option.map_some, Option.some.injEq]
+  exact c20_called_iff true es[n]
+
+/-- a payload with one optional field: `none` = absent. Decoding a body that sets the field overwrites it,
+    decoding `{}` leaves the target untouched (encoding/json's behaviour on a non-fresh target);
+    the validator demands the field. -/
+def reqSet : Env (Option String) := { zero := none, decode := fun _ => some (some "John"), validate := fun _ b => if b.isSome then .ok else .err "field Name is required" false false }
+def reqEmpty : Env (Option String) := { zero := none, decode := fun b => some b, validate := fun _ b => if b.isSome then .ok else .err "field Name is required" false false }
+
+/-- WITNESS (seeded change C20i): the same closure WITHOUT the fresh declaration — the payload survives from
+    request to request — lets the invalid second request through, which C20 forbids -/
+theorem c20_pooled_witness :
+    serveAll [(.decode "Invalid JSON" 400), (.validate false "Validation error: " 400 none false false), .next] (some none) [reqSet, reqEmpty]
+      = [.callNext, .callNext] ∧
+    [reqSet, reqEmpty].map (specAct false) = [.callNext, .respond 400 "Validation error: field Name is required\n"] := by
+  decide
+
+/-- non-vacuity of c20_sequence on the same two requests -/
+example : serveAll validateRequest (some (some "left over")) [reqSet, reqEmpty] = [.callNext, .respond 400 "Validation error: field Name is required\n"] := by
+  decide
+
 
 end Props
